@@ -69,3 +69,22 @@ package server
 //@   loop 0 invariant backing: allocated(arr(resp.Responses))
 //@   loop 0 modifies casAcked, putN, #remoteexecution.BatchUpdateBlobsRequest_Request.Data, resp.Responses, elems(resp.Responses)
 //@   call Put#* asserts[C01] declared: arg2 == 1 && arg3 == req.Digest.Hash && arg4 == req.Digest.SizeBytes && arg4 == len(req.Data)
+
+// Any combination of (reader, size, error) may come back from the cache.
+//@ iface (github.com/buchgr/bazel-remote/v2/cache/disk.Cache).Get(c, ctx, kind, hash, size, offset)
+//@   pure
+//@ iface (io.Closer).Close(c)
+//@   pure
+
+//@ func (s *grpcServer) getBlobData(ctx context.Context, hash string, size int64) ([]byte, error)
+//@   serves C02 C14
+//@   requires s != nil && s.cache != nil && ctx != nil
+//@   ensures[C02] negsize: size < 0 ==> result1 != nil
+//@   call Get#* asserts[C02] ask: arg2 == 1 && arg3 == hash && arg4 == size && arg5 == 0 && size > 0
+
+// GetTree's recursion over stored Directory blobs (C14: a stored blob must not crash the handler).
+//@ func (s *grpcServer) fillDirectories(ctx context.Context, resp *pb.GetTreeResponse, dir *pb.Directory, errorPrefix string) error
+//@   serves C14
+//@   requires s != nil && s.cache != nil && s.accessLogger != nil && ctx != nil && resp != nil && dir != nil
+//@   noframe
+//@   modifies resp.Directories, elems(resp.Directories)
